@@ -28,7 +28,10 @@ contract='''
             r matches Ok(Some(db)) ==> ({
                 let u = old(self).unparsed();
                 &&& u.len() >= 5 + hdr_len(u) && hdr_flag(u) <= 1 && hdr_len(u) <= old(self).limit()
-                &&& hdr_flag(u) == 0 ==> db.len == hdr_len(u) && (*db.buf)@ == u.skip(5)
+                &&& hdr_flag(u) == 0 ==> db.len == hdr_len(u) && (*db.buf)@ == u.skip(5) && *final(db.buf) == final(self).buf
+                        && db.buf.reserve_bound == old(self).buf.reserve_bound
+                        && final(self).state == (State::ReadBody { compression: None, len: hdr_len(u) as usize })
+                &&& final(self).encoding == old(self).encoding && final(self).max_message_size == old(self).max_message_size
                 &&& hdr_flag(u) == 1 ==> old(self).encoding is Some
                         && decompress_spec(old(self).encoding->Some_0, u.subrange(5, 5 + hdr_len(u))) == Some((*db.buf)@)
                         && db.len == (*db.buf)@.len()
